@@ -9,7 +9,9 @@ import warnings
 
 import numpy as np
 
-from pvm.checks.c01 import SUBJECT_NAMES
+from pvm.checks.c01 import SUBJECT_NAMES as _C01_NAMES
+
+SUBJECT_NAMES = _C01_NAMES + ["EventSeries", "CouplingAnalysis"]
 
 META = dict(
     shards={"quick": 16, "thorough": 16},
@@ -112,7 +114,7 @@ def run(ctx):
     from pvm.mon.reflect import same, snapshot, brief
     from pvm.checks.c01 import is_spectral, spectral_defined
     S.COPY_INPUTS[0] = False
-    subs = S.all_subjects()
+    subs = S.all_subjects() + S.purity_only_subjects()
     cap = 9000 if ctx.thorough else 1200
 
     def call(q, o):
